@@ -29,6 +29,9 @@ import (
 // SerializeKey serializes a jwk.Key in the appropriate format so they can be wrapped.
 // Symmetric keys are returned as raw bytes, while asymmetric keys are marshalled as ASN.1 DER (X.509, not PEM-encoded).
 func SerializeKey(key jwk.Key) ([]byte, error) {
+	if key == nil {
+		return nil, ErrKeyTypeMismatch
+	}
 	var rawKey any
 	err := key.Raw(&rawKey)
 	if err != nil {
